@@ -566,7 +566,8 @@ class CallMixin:
         fr.env = dict(env0)
         # keep spec-only names visible
         for k in ('result', 'exc', '_i', '_n'):
-            if k in cur_env:
+            # (a parameter that is itself called 'result' keeps its entry value inside old())
+            if k in cur_env and not (k == 'result' and k in env0):
                 fr.env[k] = cur_env[k]
         self.st.heap = tmp_heap
         try:
@@ -670,6 +671,10 @@ class CallMixin:
             except PathEnd:
                 # empty range under the current path condition: the body is irrelevant
                 body = (which == 'forall')
+            except PyRaise:
+                # the body cannot be evaluated for ANY index of the range (e.g. subscript of an empty
+                # list): the statement holds exactly if the range is empty
+                body = False
         finally:
             self.no_fork -= 1
             # drop the range assumption; definitional facts about the bound variable
